@@ -168,7 +168,7 @@ func checkC01(c *Ctx, r *Report) {
 		var sites []string
 		nAlways := 0
 		var stack []ast.Node
-		ast.Inspect(fi.Decl.Body, func(n ast.Node) bool {
+		w.inspectRegion(fi, func(n ast.Node) bool {
 			if n == nil {
 				stack = stack[:len(stack)-1]
 				return true
@@ -407,7 +407,7 @@ func checkPathRule(c *Ctx, r *Report, clause, ver, setFn string) {
 	var sites []string
 	viol := ""
 	var rds []*ast.CallExpr
-	ast.Inspect(fi.Decl, func(n ast.Node) bool {
+	w.inspectRegion(fi, func(n ast.Node) bool {
 		if cl, ok := n.(*ast.CallExpr); ok && calleeOfCall(info, cl) == "common.RemoveDuplicateSlash" {
 			rds = append(rds, cl)
 		}
@@ -432,7 +432,7 @@ func checkPathRule(c *Ctx, r *Report, clause, ver, setFn string) {
 	}
 	// every path-keyed call (Find/Get/Set on Paths / PathItems) uses that value
 	nKeyed := 0
-	ast.Inspect(fi.Decl, func(n ast.Node) bool {
+	w.inspectRegion(fi, func(n ast.Node) bool {
 		cl, ok := n.(*ast.CallExpr)
 		if !ok {
 			return true
@@ -461,7 +461,7 @@ func checkPathRule(c *Ctx, r *Report, clause, ver, setFn string) {
 	sites = nil
 	if ver == "3.0" {
 		n := 0
-		ast.Inspect(fi.Decl, func(nd ast.Node) bool {
+		w.inspectRegion(fi, func(nd ast.Node) bool {
 			cl, ok := nd.(*ast.CallExpr)
 			if ok && strings.HasSuffix(calleeOfCall(info, cl), "openapi3.PathItem).SetOperation") {
 				n++
@@ -524,7 +524,7 @@ func checkRouteAnnotationArg(c *Ctx, r *Report, fi *FuncInfo, clause, fn string)
 	var sites []string
 	viol := ""
 	n := 0
-	ast.Inspect(fi.Decl, func(nd ast.Node) bool {
+	w.inspectRegion(fi, func(nd ast.Node) bool {
 		cl, ok := nd.(*ast.CallExpr)
 		if ok && calleeOfCall(info, cl) == "(core/annotations.AnnotationHolder).GetFirstValueOrEmpty" {
 			n++
@@ -550,7 +550,7 @@ func checkAnnotationConst(c *Ctx, r *Report, clause, fn, constName string) {
 	w := c.W
 	info := fi.Pkg.TypesInfo
 	var sites []string
-	ast.Inspect(fi.Decl, func(nd ast.Node) bool {
+	w.inspectRegion(fi, func(nd ast.Node) bool {
 		if id, ok := nd.(*ast.Ident); ok {
 			if cst, ok := info.Uses[id].(*types.Const); ok && cst.Name() == constName && short(cst.Pkg().Path()) == "core/annotations" {
 				sites = append(sites, w.pos(id.Pos()))
